@@ -36,4 +36,11 @@ CHECKS = {
         note="Bounded: depth 6 (8 thorough), 2 tasks, 2 messages, <=3 shards; thorough adds two-shard reports. The store is an in-memory api.ReplicateStore that serialises to JSON like both real backends; store faults are not injected (not in the property's quantifier).",
         parts=[part("meta", "core", "meta", "TestVerifC17Meta", shards=(8, 16), budget=(150, 900))],
     ),
+    "C09": dict(
+        level="model_checking", engine="seq",
+        technique="total enumeration of operation kind x source database x mapping shape x entry order through the real ChannelWriter against a reference mapping function",
+        text="Every operation kind (18 op messages, 4 API events, 5 DML kinds, the 3 readiness probes they trigger) is pushed through the real ChannelWriter for every source database, mapping shape, insertion order of mapping entries and downstream answer; every call recorded at the fake DataHandler is compared with the reference mapping (routing database, request db/collection fields) and the writer's bookkeeping keys with source-name keys.",
+        note="Finite input space enumerated completely. sync.Map iteration order is random and outside the harness' control: multi-entry mappings are repeated 24x (200x thorough) under every insertion order and all repetitions must agree. RBAC entity fields are C20's business.",
+        parts=[part("names", "core", "writer", "TestVerifC09Names", shards=(8, 16), budget=(150, 900))],
+    ),
 }
